@@ -248,11 +248,39 @@ func (e *env) reopenObs() string {
 	e.kmc = k
 	e.unlocked = false
 	obs := e.dumpQuiet() + " pub=" + strconv.Itoa(pubUsed)
-	if len(k.ListKeystoreNames()) > 0 {
+	e.mixed = ""
+	if names := k.ListKeystoreNames(); len(names) > 0 {
 		for p := 0; p < 5; p++ {
 			if k.Unlock([]byte(e.passes[p])) == nil {
 				obs += " priv=" + strconv.Itoa(p)
-				k.Lock()
+			} else if _, ks := k.VerifDump(); true {
+				// C03: a passphrase that does not unlock the wallet unlocks nothing
+				for _, v := range ks {
+					np := 0
+					for _, a := range v.Addrs {
+						if a.HasPriv {
+							np++
+						}
+					}
+					if v.Unlocked || v.AcctPriv || np > 0 {
+						e.mixed = fmt.Sprintf("Unlock with passphrase #%d was refused, yet keystore %d is left unlocked (private keys in memory: %d)", p, e.id(v.Name), np)
+					}
+				}
+			}
+			k.Lock()
+		}
+		// C03: one private passphrase governs all keystores -- the passphrases each keystore's export accepts agree
+		accepts := map[string]string{}
+		for _, n := range names {
+			for p := 0; p < 5; p++ {
+				if _, err := k.ExportKeystore(n, []byte(e.passes[p])); err == nil {
+					accepts[n] += strconv.Itoa(p)
+				}
+			}
+		}
+		for _, n := range names {
+			if accepts[n] != accepts[names[0]] || len(accepts[n]) != 1 {
+				e.mixed = fmt.Sprintf("after the reopen keystore %d is governed by passphrase(s) #%q and keystore %d by #%q", e.id(names[0]), accepts[names[0]], e.id(n), accepts[n])
 			}
 		}
 	}
@@ -446,6 +474,9 @@ func (e *env) faultHistory(pub int, history []string) {
 				opk := strings.Fields(op)[0]
 				h.FailWith("C12:"+key+"-"+opk+"-"+x.mode+"-"+kind, desc, replay)
 			}
+			if r.mixed != "" {
+				h.FailWith("C03:passphrases-diverge-after-fault-"+strings.Fields(op)[0], fmt.Sprintf("history %q then %q with %s@%d(%s): %s", strings.Join(prefix, "; "), op, x.mode, x.at, kind, r.mixed), replay)
+			}
 		}
 		h.Emit(mop, outPost) // the model advances along the fault-free history
 	}
@@ -540,6 +571,13 @@ func runFaults(e *env) {
 		// the same kinds of operation on an UNLOCKED wallet (a failed operation must also leave the keys usable as before)
 		{"new p1w s0 -", "next 0 0 2", "unlock p1w", "next 0 1 1", "remark 0 72656e616d6564", "genpub -", "delete 0 p1w"},
 		{"new p1w s0 -", "new p1w s1 78", "unlock p1w", "chpriv p1w p2w", "export 0 p2w", "delete 1 p2w", "import 0 p2w - none", "lock"},
+	}
+	if e.focus == "C03" {
+		// C03 runs the passphrase part only: faults inside a passphrase change over two and three keystores
+		fixed = [][]string{
+			{"new p1w s0 -", "new p1w s1 78", "chpriv p1w p2w"},
+			{"new p1w s0 -", "new p1w s1 78", "new p1w s2 -", "unlock p1w", "chpriv p1w p2w", "lock"},
+		}
 	}
 	for _, hist := range fixed {
 		e.faultHistory(0, hist)
